@@ -1120,7 +1120,7 @@ class PyCdlib:
                         if new_record.inode is not None:
                             new_record.inode.data_length = iso_file_length - extent_to_use * self.logical_block_size
                             for rec, is_pvd in new_record.inode.linked_records:
-                                rec.set_data_length(new_end)
+                                rec.set_data_length(new_record.inode.data_length)
                     else:
                         # The new end is still within the file size, but the PVD
                         # size is wrong.  Set the lastbyte appropriately, which
